@@ -8,6 +8,18 @@ VERIF = Path(__file__).resolve().parent.parent
 ALL = [f"C{i:02d}" for i in range(1, 21)]
 
 CHECKS = {
+    "C04": dict(
+        technique="TLA+ spec OpPairs (TLC exhaustive over operation pairs x targets) + real commute() answers judged by TLC (TracePairs)",
+        text="TLC enumerates every ordered pair (existing, new) over the operation menus (calculation, all projections, 10 predicates, deduplication, 9+21 sort-term lists, 7+45 slices) and proves the commutation law on the code-shaped Commute rules for all 85 targets (<=3 rows over a,b in 0..1); for every pair the REAL new.commute(existing) is called and its answer (first, second, done) is handed back to TLC, which interprets it with the reference semantics over every target: a sound answer that differs from the model passes (reported as drift), an unsound one is a violation. Companion configurations re-derive findings F2 (open), F10 and F6 (fixed) as TLC counterexamples.",
+        design_ref="§6 C04",
+        note="bounded: schema {a,b}+calculated tags, values 0..1, targets <=3 rows; join pairs are covered by the multi-engine/SQL specs; tag reuse is out of contract and not generated",
+    ),
+    "C05": dict(
+        technique="TLA+ spec OpPairs/DoMerge (TLC exhaustive) + real merged trees judged by TLC (TracePairs) + execution replay in IterProgram",
+        text="TLC enumerates all adjacent pairs incl. every slice pair with start 0..4 and stop None/start..6 (900 pairs on targets of length 0..6), all 441 pairs of sort-term lists of length <=2, all predicate shapes of the menu, and proves on the code-shaped Simplify/_finish_apply rules that the merged tree denotes the two operations in sequence and that merging never raises; the REAL tree obtained by applying the two operations through the public apply() is projected and handed back to TLC, which evaluates its denotation on every target.",
+        design_ref="§6 C05",
+        note="bounded as C04; execution-level confirmation (real iteration engine rows) is part of the C01 check",
+    ),
     "C12": dict(
         technique="TLA+ spec ExprGen (TLC exhaustive) + replay of every TLC state into iteration callable and SQLite + TLC validation of recorded answers (TraceExpr)",
         text="TLC enumerates every expression/predicate of the bounded grammar (all ranges with start,stop in -3..4 and steps +-1..3, n-ary AND/OR with 0..3 operands, six comparisons, four arithmetic functions) and checks in the model that the code-shaped SQL translation evaluated with SQLite arithmetic equals the reference meaning on all 64 rows; every TLC state is then replayed into the real iteration-engine callable and the real SQL translation executed by SQLite and compared with TLC's truth table; recorded answers for deeper random expressions are judged by TLC.",
